@@ -11,24 +11,41 @@ EXTENDS KvDispatch, PagerInv, Json, IOUtils
 
 Rec == ndJsonDeserialize(IOEnv.TRACE)
 
-VARIABLE l          \* index of the next record to consume
+VARIABLES
+  l,          \* index of the next record to consume
+  lastAlloc,  \* the allocated page set of the last accounting record (<<>> before the first)
+  clean       \* nothing that may legitimately change the allocation happened since that record
 
-vars == <<kvVars, l>>
+vars == <<kvVars, l, lastAlloc, clean>>
 
-TraceInit == Init /\ l = 1
+TraceInit == Init /\ l = 1 /\ lastAlloc = <<>> /\ clean = FALSE
+
+\* calls after which the set of allocated pages may differ: a completed commit, reopen, compaction,
+\* integrity check, crash.  Everything else - in particular abort(), a dropped transaction and a
+\* poisoned commit() - must leave the allocation exactly as it was (C05: no space remains consumed)
+MayChangeAlloc(R) ==
+  \/ R.e \in {"reopen", "compact", "integrity", "crash", "reset"}
+  \/ R.e = "cend" /\ ~IsE(R.r, "TransactionPoisoned")
 
 Ev(e) == l <= Len(Rec) /\ Rec[l].e = e /\ l' = l + 1
 
 TReset ==
   /\ Ev("reset")
-  /\ hist' = <<EmptyDb>> /\ dur' = 1 /\ inflight' = <<>> /\ wtx' = NoTx /\ readers' = EmptyFn
+  /\ hist' = <<EmptyDb>> /\ dur' = 1 /\ inflight' = <<>> /\ wtx' = NoTx /\ readers' = EmptyFn /\ rpend' = EmptyFn
   /\ eph' = EmptyFn /\ nextOrd' = 1 /\ its' = EmptyFn /\ latch' = "ok"
+  /\ lastAlloc' = <<>> /\ clean' = FALSE
 
 \* a record that carries information for humans only
-TNote == Ev("note") /\ UNCHANGED kvVars
+TNote == Ev("note") /\ UNCHANGED <<kvVars, lastAlloc, clean>>
 
 \* page accounting projected from the real state at a transaction boundary
-TAcct == Ev("acct") /\ AcctOk(Rec[l]) /\ UNCHANGED kvVars
+TAcct ==
+  /\ Ev("acct") /\ AcctOk(Rec[l]) /\ UNCHANGED kvVars
+  /\ IF "alloc" \in DOMAIN Rec[l]
+     THEN /\ (clean /\ lastAlloc # <<>>) =>
+                Check("AbortLeavesNoTrace", SetOf(Rec[l].alloc) = lastAlloc[1], Rec[l])
+          /\ lastAlloc' = <<SetOf(Rec[l].alloc)>> /\ clean' = TRUE
+     ELSE lastAlloc' = <<>> /\ clean' = FALSE
 
 TraceNext ==
   \/ TReset
@@ -36,6 +53,8 @@ TraceNext ==
   \/ TAcct
   \/ /\ l <= Len(Rec) /\ l' = l + 1
      /\ Do(Rec[l])
+     /\ lastAlloc' = lastAlloc
+     /\ clean' = (clean /\ ~MayChangeAlloc(Rec[l]))
 
 TraceSpec == TraceInit /\ [][TraceNext]_vars
 
